@@ -216,7 +216,7 @@ def run_check(prop: str, tier: str, seed: int, replay: str | None = None) -> int
         lines.append(f"KNOWN-FINDING: property={prop} {kid} {what} (seen {k['count']}x, e.g. {jdump(ex)[:300]})")
     if merged["violation_count"]:
         rc = 1
-        rdir = os.path.join(VERIF, "replays", prop)
+        rdir = os.path.join(VERIF, "replays" if os.environ.get("YV_SRC", "/repo") == "/repo" else "replays-scratch", prop)
         os.makedirs(rdir, exist_ok=True)
         seen = set()
         for v in merged["violations"]:
@@ -263,8 +263,10 @@ def run_check(prop: str, tier: str, seed: int, replay: str | None = None) -> int
             "wall_s": round(wall, 2),
             "violations": int(merged["violation_count"]),
         }
-        os.makedirs(os.path.join(VERIF, "evidence"), exist_ok=True)
-        with open(os.path.join(VERIF, "evidence", f"{prop}.json"), "w") as f:
+        # runs against a scratch source tree (self-tests with YV_SRC) never touch the registered evidence
+        evdir = "evidence" if os.environ.get("YV_SRC", "/repo") == "/repo" else "evidence-scratch"
+        os.makedirs(os.path.join(VERIF, evdir), exist_ok=True)
+        with open(os.path.join(VERIF, evdir, f"{prop}.json"), "w") as f:
             f.write(json.dumps(json.loads(jdump(ev)), indent=1, ensure_ascii=True))
     verdict = {0: "HELD", 1: "VIOLATED", 2: "INCONCLUSIVE"}[rc]
     print(
